@@ -591,8 +591,8 @@ _B4_POOL = (0, 1, 8, 9, 16, 64, 'a', 'zz', (1, 2), frozenset({1}), frozenset({2}
             frozenset([32, 3, 11]), frozenset([32, 2]), 1 + 2j, 3 + 4j)     # complex: hashable, same type, no '<' at all (S-C12-7). frozensets: '<' is only a partial order; the last two list their members in another order after a pickle round trip (repr differs)
 
 
-@obligation('B4', props=('C15', 'C01', 'C09'), quick=[dict(k=2), dict(k=3)], stubs=('none',),
-            bounds='sets of k<=3 elements from a pool of small ints (colliding in an 8-slot table), strings and a tuple; one replica built through a long history (200 adds, discards), '
+@obligation('B4', props=('C15', 'C01', 'C09'), quick=[dict(k=2), dict(k=3)], thorough=[dict(k=2), dict(k=3), dict(k=4)], stubs=('none',),
+            bounds='sets of k<=3 (thorough: 4) elements from a pool of small ints (colliding in an 8-slot table), strings and a tuple; one replica built through a long history (200 adds, discards), '
                    'one restored from a snapshot (the consumer\'s own _serialize/_deserialize through the real pickle), one built directly')
 def B4(inp, k):
     """ReplSet.pop on replicas with equal contents but different histories: the element removed is the same everywhere (the
